@@ -278,7 +278,7 @@ def concretise(shape, entry, dims, rng, tier, k):
     conn["rhold_t"] = shape.get("rhold") == "t"
     # an optimistic SOCKS client: the first octets of its stream travel in the same write as the SOCKS request (SOCKS5:
     # greeting, request and payload pipelined), before it has read the proxy's reply
-    if entry.startswith("socks") and not conn["refuse"] and k % 3 == 0:
+    if (entry.startswith("socks") or entry == "http") and not conn["refuse"] and k % 3 == 0:
         conn["eager"] = [1, 7, 300, 3200][(k // 3) % 4]
     return conn
 
